@@ -44,7 +44,7 @@ PROPERTIES["C12"] = dict(
     ],
 )
 
-INFER_FILES = ["inference/zz_verif_c05.go", "inference/zz_verif_c05l2.go", "inference/zz_verif_registry.go"]
+INFER_FILES = ["inference/zz_verif_c05.go", "inference/zz_verif_c05l2.go", "inference/zz_verif_c06.go", "inference/zz_verif_registry.go"]
 
 PROPERTIES["C05"] = dict(
     explanation="symx executes the inference engine's own observe* functions (L1) and ObservePackage/buildPkgInferenceMap/buildFromSingleFullTrigger on real FullTrigger values (L2) "
@@ -62,5 +62,70 @@ PROPERTIES["C05"] = dict(
              quick=dict(params=dict(S=3, N=3)), thorough=dict(params=dict(S=4, N=4)), args=dict(sample_every=101)),
         dict(pkg="inference", files=INFER_FILES, entry="Harness_C05_L2",
              quick=dict(params=dict(S=2, N=3)), thorough=dict(params=dict(S=2, N=4)), args=dict(sample_every=997)),
+    ],
+)
+
+C06_EXPL = ("symx executes InferredMap.Export, chooseSitesToExport, inferredValDiff, Engine.ObserveUpstream (sort + upstreamMapping snapshot), newPrimitivizer's fact scan, "
+            "orderedmap.rehydrate and the observe* functions from SSA, package by package over a small package DAG. Site identities and exported flags are symbolic; constraint kinds "
+            "and the order in which dependency facts are handed over are choices; the oracle is the order-free whole-program reachability reference as one SMT term.")
+
+PROPERTIES["C06"] = dict(
+    explanation=C06_EXPL,
+    bounds=dict(quick="two packages A<-B: <=2 constraints each (source/sink/flow) over 2+2 sites with symbolic exported flags; export step alone: <=3 constraints over 4 sites",
+                thorough="A<-B with annotations too (5 kinds); export step alone: <=4 flows over 5 sites and <=4 constraints (3 kinds) over 4 sites"),
+    outside=["the bytes produced by encoding/gob + s2 (the codec is executed for real only in the native replay of sampled paths and counterexamples; under symx it is modelled as a structural copy that drops the unexported index)",
+             "contract/affiliation/nolint facts", "graphs beyond the bound"],
+    assumptions=COMMON_ASSUMPTIONS + ["a package mentions only its own sites and exported sites of its dependencies",
+                                      "gob preserves OrderedMap.Pairs in order and drops unexported fields (validated natively on sampled paths)"],
+    runs=[
+        dict(pkg="inference", files=INFER_FILES, entry="Harness_C06",
+             quick=dict(params=dict(TOPO=0, SP=2, NP=2, KINDS=3)), thorough=dict(params=dict(TOPO=0, SP=2, NP=2, KINDS=5)), args=dict(sample_every=1999)),
+        dict(pkg="inference", files=INFER_FILES, entry="Harness_C06_Export",
+             quick=dict(params=dict(SP=4, NA=3, KINDS=3)), thorough=dict(params=dict(SP=5, NA=4, KINDS=1)), args=dict(sample_every=499)),
+    ],
+)
+
+PROPERTIES["C03"] = dict(
+    explanation=C06_EXPL + " C03 uses the chain A<-B<-C (C receives A's fact only transitively) and the diamond A<-{B,C}<-D; the modular result (one engine per package, facts through the codec) "
+                "is compared with the whole-program reference over the union of all constraints.",
+    bounds=dict(quick="chain of 3 packages: <=1 constraint each over 2 sites per package; diamond of 4 packages: <=1 constraint each over 1 site per package; dependency facts handed over in every order",
+                thorough="chain of 3: <=2 constraints each; diamond: <=1 constraint each over 2 sites per package"),
+    outside=["real drivers (go vet -vettool, nogo), real serialisation bytes", "contracts/affiliation/nolint facts", "position re-keying across packages (C15)", "everything above the inference engine"],
+    assumptions=COMMON_ASSUMPTIONS + ["a package mentions only its own sites and exported sites of its dependencies",
+                                      "go/analysis hands every package the facts of all transitive dependencies (documented driver behaviour)"],
+    runs=[
+        dict(pkg="inference", files=INFER_FILES, entry="Harness_C06",
+             quick=dict(params=dict(TOPO=1, SP=2, NP=1, KINDS=3)), thorough=dict(params=dict(TOPO=1, SP=2, NP=2, KINDS=3)), args=dict(sample_every=499)),
+        dict(pkg="inference", files=INFER_FILES, entry="Harness_C06", name="diamond",
+             quick=dict(params=dict(TOPO=2, SP=1, NP=1, KINDS=3)), thorough=dict(params=dict(TOPO=2, SP=2, NP=1, KINDS=3)), args=dict(sample_every=1999)),
+    ],
+)
+
+PROPERTIES["C11"] = dict(
+    explanation="symx executes (*diagnostic.Engine).Diagnostics (sort, groupConflicts, the nolint-range filter, involvesTestFile, conflict.String) from SSA on conflicts whose report "
+                "line/offset and the nolint range bounds are symbolic; which conflicts were reported, and under which leader, is read off the real messages. "
+                "The assertion 'reported iff not on a nolint line' is one solver query per conflict per path over all line/range values.",
+    bounds=dict(quick="<=2 conflicts (2 files, 2 nil sources, overconstraint- and single-assertion style), <=2 nolint ranges, lines 1..50, both grouping values, both exclude-test-files values",
+                thorough="<=3 conflicts, <=1 range"),
+    outside=["how a comment is attached to a statement's line range (ast.NewCommentMap) and the comment-text recogniser nolintContainsNilAway",
+             "single-assertion conflicts without a producer position (enclosing-function scan over pass.Files)", "toPos (C14)"],
+    assumptions=COMMON_ASSUMPTIONS + ["toPos is replaced by the identity on offsets under symx (its result is not observed); the native replay runs the real toPos"],
+    runs=[
+        dict(pkg="diagnostic", files=["diagnostic/zz_verif_c11.go"], entry="Harness_C11",
+             quick=dict(params=dict(N=2, R=2)), thorough=dict(params=dict(N=3, R=1)), args=dict(sample_every=997)),
+    ],
+)
+
+PROPERTIES["C13"] = dict(
+    explanation="symx executes Diagnostics(false) and Diagnostics(true) on the same symbolic conflicts (groupConflicts, addSimilarConflict, conflict.String, pathString, node.String from SSA) "
+                "and compares the two reports location by location; counts are parsed from the real messages.",
+    bounds=dict(quick="<=3 conflicts (2 files, 2 nil sources, two conflict styles), symbolic offsets (every sort order)", thorough="<=5 conflicts"),
+    outside=["the pretty-printing sentence: PrettyPrintErrorMessage is three regexp.ReplaceAllString calls with capture groups; symbolic text through the regexp VM is out of reach "
+             "(see DESIGN.md section 4, C13 and section 6 item 4: by inspection it drops the double quotes around positions)",
+             "single-assertion conflicts without a producer position"],
+    assumptions=COMMON_ASSUMPTIONS,
+    runs=[
+        dict(pkg="diagnostic", files=["diagnostic/zz_verif_c11.go"], entry="Harness_C13",
+             quick=dict(params=dict(N=3)), thorough=dict(params=dict(N=5)), args=dict(sample_every=499)),
     ],
 )
